@@ -17,7 +17,10 @@ DCanon(a) == DOneTwoFive(a, 7, 12) \/ (DOneTwoFive(a, 13, 13) /\ a[13] = 1)
 
 CS == INSTANCE ChangeStrategy WITH NAdd <- DAdd, NSub <- DSub, NLe <- DLe, NOf <- DOf,
                                    NMulS <- DMulS, NCanon <- DCanon, MaxMoney <- DMaxMoney,
-                                   FoldCap <- 100000
+                                   FoldCap <- 100000,
+                                   \* env C07_KNOWN_ORCHARD_OUTPUTS = "1" iff known_findings.json lists
+                                   \* C07-orchard-outputs-after-nu63 as open (set by checks/c07.py on every run)
+                                   KnownOrchardOutputs <- (IOEnv.C07_KNOWN_ORCHARD_OUTPUTS = "1")
 
 Rec == ndJsonDeserialize(IOEnv.TRACE)
 
